@@ -1,12 +1,14 @@
 """C20 — built-ins and aggregates on SQLite."""
-META = {
-  'level': 'other',
-  'explanation': 'UDF classes and functions of sqlite3_logica.py are under contract (bounded native '
-                 'execution over all short step() histories incl. every arrival order; deductive where '
-                 'listed); built-in SQL templates are checked as bounded value contracts on compile+execute.',
-  'assumptions': ["SQLite's JSON1 functions and arithmetic"],
-}
+import os, sys
+sys.path.insert(0, os.path.dirname(os.path.abspath(__file__)))
+import _std
+
+META = {}
 
 
 def run(tier, seed):
-  return []
+  return _std.std_run('C20', tier, seed, monitors=False)
+
+
+def replay(spec):
+  return _std.std_replay('C20', spec)
